@@ -68,10 +68,13 @@ func checkC19(c *Ctx) {
 	c.Set("exhaustive", true)
 
 	// the invariants are not vacuous: each wrong transcription is caught by TLC
-	for _, v := range []string{"prepend-nocopy", "replace-nocopy", "append-arg-first", "replace-inplace"} {
+	for _, v := range []string{"prepend-nocopy", "replace-nocopy", "append-arg-first", "replace-inplace", "clear-keep"} {
 		ops := 4
 		if v == "replace-inplace" {
 			ops = 5 // NewArg, Append, All, CallerMutate, Replace
+		}
+		if v == "clear-keep" {
+			ops = 6 // NewArg, Append, All, Clear, a second caller slice or a caller mutation, Append
 		}
 		r, err := RunTLC(TLCRun{Module: "Decorations", Cfg: c19Cfg(ops, 2, v, false), Workers: 4, Timeout: 5 * time.Minute})
 		if err != nil || r.Violated == "" {
@@ -79,7 +82,7 @@ func checkC19(c *Ctx) {
 			return
 		}
 	}
-	c.Set("spec_variants_rejected_by_tlc", 4)
+	c.Set("spec_variants_rejected_by_tlc", 5)
 
 	// (R) every behaviour of length genOps, emitted by TLC, replayed on the real type
 	gen, err := RunTLC(TLCRun{Module: "Decorations", Cfg: c19Cfg(genOps, 2, "code", true), Workers: 8, Timeout: 20 * time.Minute})
@@ -104,6 +107,19 @@ func checkC19(c *Ctx) {
 		}
 		c.TLC(sg)
 		behs = append(behs, sg.Payloads("BEH ")...)
+	}
+	// ... and six actions for those in which it holds one across a Clear that is followed by an Append
+	// (NewArg, Append, All, Clear, a second caller slice or a caller mutation, Append)
+	{
+		clearCfg := strings.Replace(c19Cfg(6, 2, "code", true), `EmitFilter = "all"`, `EmitFilter = "clear"`, 1)
+		cg, err := RunTLC(TLCRun{Module: "Decorations", Cfg: clearCfg, Workers: 12, Timeout: 20 * time.Minute})
+		if err != nil || !cg.OK() {
+			c.Infra("TLC generation run (All() results held across Clear) failed: " + errText(cg, err))
+			return
+		}
+		c.TLC(cg)
+		c.Set("behaviours_held_across_clear", len(cg.Payloads("BEH ")))
+		behs = append(behs, cg.Payloads("BEH ")...)
 	}
 	c.Set("behaviours_emitted", len(behs))
 	c.Set("replay_bounds", fmt.Sprintf("all behaviours of exactly %d actions", genOps))
